@@ -42,11 +42,17 @@ def _round32(w, x):
 _LIBM1 = {'floor': math.floor, 'ceil': math.ceil, 'trunc': math.trunc}
 
 
+_APPROX = {'sin': (1, math.sin), 'cos': (1, math.cos), 'tan': (1, math.tan), 'asin': (1, math.asin), 'acos': (1, math.acos), 'atan': (1, math.atan), 'atan2': (2, math.atan2),
+           'exp': (1, math.exp), 'log': (1, math.log), 'exp2': (1, lambda x: 2.0 ** x), 'log2': (1, math.log2), 'pow': (2, math.pow), 'sinh': (1, math.sinh), 'cosh': (1, math.cosh), 'tanh': (1, math.tanh),
+           'asinh': (1, math.asinh), 'acosh': (1, math.acosh), 'atanh': (1, math.atanh)}
+
+
 class Eval:
-    def __init__(self, env):
+    def __init__(self, env, approx=False):
         """env: {input term: bit pattern (int)}"""
         self.env = env
         self.memo = {}
+        self.approx = approx
 
     def v(self, t):
         r = self.memo.get(t)
@@ -213,6 +219,12 @@ class Eval:
                     return (sign if y < 0 else 0) | 1
                 up = (y > x) == (x > 0)            # magnitude grows when moving away from zero
                 return bx + 1 if up else bx - 1
+            if getattr(self, 'approx', False) and name in _APPROX and len(a) - 1 == _APPROX[name][0] and all(x.w == w for x in a[1:]):
+                # approximate mode (gross witnesses only: the caller compares with a tolerance orders of magnitude above an ulp): the host libm stands in for the target's
+                try:
+                    return f2b(w, _APPROX[name][1](*[b2f(w, self.v(x)) for x in a[1:]]))
+                except (ValueError, OverflowError, ZeroDivisionError):
+                    raise NoValue('function %s outside its domain' % name)
             raise NoValue('function ' + str(name))
         if op in ('fptosi', 'fptoui'):
             x = b2f(a[0].w, self.v(a[0]))
@@ -235,5 +247,6 @@ class Eval:
         raise NoValue('operator ' + op)
 
 
-def evaluate(t, env):
-    return Eval(env).v(t)
+def evaluate(t, env, approx=False):
+    """exact value of the term (bit pattern); approx=True additionally evaluates the transcendental functions with the host libm - for witnesses judged with a tolerance only"""
+    return Eval(env, approx).v(t)
